@@ -51,6 +51,10 @@ def loop(spec, ctx, gen_case, run_case, api0="case"):
         case = gen_case(rng, spec)
         if case is None:
             continue
+        if isinstance(case, dict) and "wrepr" not in case:
+            # representation of Float weights: python floats, or numpy scalars as numeric code hands them in
+            case["wrepr"] = "np" if rng.random() < 0.2 else "float"
+        set_case_globals(case)
         try:
             with watchdog(spec.get("case_wall_s", 40), spec.get("case_cpu_s", 30)):
                 run_case(case, ctx)
@@ -89,3 +93,10 @@ def add_m9_shard(specs, tier):
         s.update({"m9": True, "n": 0, "time_budget": 1500, "hashseed": 0, "tie": "native", "pop": "native", "stream": "m9"})
         specs.append(s)
     return specs
+
+
+def set_case_globals(case):
+    "per-case settings that live outside the case dict's consumers (also used when replaying a witness)"
+    from rv import lib
+
+    lib.FLOAT_REPR = case.get("wrepr", "float") if isinstance(case, dict) else "float"
